@@ -156,6 +156,21 @@ class Names(Harness):
                 n1b = build(params["c1"], d1)
             except Exception as e:
                 raise Violation(f"node-construction-raised-{type(e).__name__}", str(e)[:200])
+            # one Payload object used for two nodes with different inputs must not leak between them
+            fn1 = CALLABLES[params["c1"]][1]
+            if not isinstance(fn1, functools.partial):
+                shared = fluent.Payload(fn1, list(d1[0]), dict(d1[1]))
+                before = (list(shared.args), dict(shared.kwargs))
+                first = fluent.Node(shared, [srcs[i] for i in d1[2]])
+                first_payload = (list(first.payload[1]), dict(first.payload[2]))
+                second = fluent.Node(shared, [srcs[i] for i in d2[2]])
+                fresh_second = fluent.Node(fluent.Payload(fn1, list(d1[0]), dict(d1[1])), [srcs[i] for i in d2[2]])
+                if (list(shared.args), dict(shared.kwargs)) != before:
+                    raise Violation("node-construction-mutated-the-callers-payload", f"{before} -> {(shared.args, shared.kwargs)}")
+                if (list(first.payload[1]), dict(first.payload[2])) != first_payload:
+                    raise Violation("later-node-rewrote-arguments-of-earlier-node", f"{first_payload} -> {first.payload[1:]}")
+                if second.name != fresh_second.name or list(second.payload[1]) != list(fresh_second.payload[1]):
+                    raise Violation("shared-payload-changes-the-node", f"{second.payload[1]} vs {fresh_second.payload[1]}")
             comp1, comp2 = computation(params["c1"], *d1), computation(params["c2"], *d2)
             ch.note("nontrivial", comp1 != comp2)
             ch.note("pair", {"a": [CALLABLES[params["c1"]][0], repr(d1)], "b": [CALLABLES[params["c2"]][0], repr(d2)]})
@@ -260,6 +275,12 @@ class Operands(Harness):
                 name, op = BINARY[params["op"]]
                 shifted = ch.flag("operand_coords_differ")
                 B = src_action("b", shape, dims, offset=100 if shifted else 0)
+                if ch.flag("scalar_coordinate"):
+                    # a scalar coordinate left behind by a selection without drop, different on both sides
+                    d = dims[0]
+                    A = A.select({d: A.nodes.coords[d].data[0]})
+                    B = B.select({d: B.nodes.coords[d].data[-1]})
+                    before_a = snapshot(A)
                 before_b = snapshot(B)
                 ch.note("case", {"op": name, "shape": list(shape), "operand_coords_differ": shifted})
                 try:
